@@ -8,6 +8,7 @@ mod c04;
 mod c05;
 mod c06;
 mod c07;
+mod c08;
 mod c10;
 mod gen;
 mod c18;
@@ -48,6 +49,7 @@ fn main() {
         "C05" => c05::run(&mut ctx),
         "C06" => c06::run(&mut ctx),
         "C07" => c07::run(&mut ctx),
+        "C08" => c08::run(&mut ctx),
         "C10" => c10::run(&mut ctx),
         "C18" => c18::run(&mut ctx),
         "C16" => c16::run(&mut ctx),
